@@ -325,6 +325,11 @@ convert(struct func *f, struct type *dst, struct type *src, struct value *l)
 	} else {
 		class = dst->size == 8 ? 'd' : 's';
 		if (src->prop & PROPINT) {
+			/* a value narrower than a word is not kept extended in its temporary */
+			switch (src->size) {
+			case 1: l = funcinst(f, src->u.basic.issigned ? IEXTSB : IEXTUB, 'w', l, NULL); break;
+			case 2: l = funcinst(f, src->u.basic.issigned ? IEXTSH : IEXTUH, 'w', l, NULL); break;
+			}
 			if (src->u.basic.issigned)
 				op = src->size == 8 ? ISLTOF : ISWTOF;
 			else
